@@ -249,8 +249,14 @@ func c13Benign(c *vlib.Ctx) {
 	}
 }
 
+type c13Kept struct {
+	out *layers.IPv4
+	d   *dgram
+}
+
 func c13RunBenign(c *vlib.Ctx, r *vlib.Rand, ds []*dgram, seq []frag, caseNo int) {
 	c.Step()
+	var kept []c13Kept
 	df := ip4defrag.NewIPv4Defragmenter()
 	got := make([]map[int]bool, len(ds))
 	lastTouch := make([]int, len(ds))
@@ -367,6 +373,7 @@ func c13RunBenign(c *vlib.Ctx, r *vlib.Rand, ds []*dgram, seq []frag, caseNo int
 			} else {
 				c13CheckComplete(c, out, d, detail)
 				completed++
+				kept = append(kept, c13Kept{out, d})
 			}
 			got[k] = map[int]bool{}
 		} else if out != nil {
@@ -374,6 +381,15 @@ func c13RunBenign(c *vlib.Ctx, r *vlib.Rand, ds []*dgram, seq []frag, caseNo int
 			got[k] = map[int]bool{}
 		}
 	}
+	// a returned datagram belongs to the caller: it must still be the original after the defragmenter went on to work
+	// on later fragments and datagrams (a result that aliases memory the defragmenter reuses would change now)
+	for _, kd := range kept {
+		if !bytes.Equal(kd.out.Payload, kd.d.payload) || int(kd.out.Length) != int(kd.out.IHL)*4+len(kd.out.Payload) {
+			c.Violation("returned-datagram-changed-later", "a datagram that was returned complete and correct no longer equals the original after later fragments were processed", detail())
+			break
+		}
+	}
+	c.Count("returned_datagrams_rechecked_at_the_end", len(kept))
 	c.Count("datagrams_completed", completed)
 	c.Count("duplicate_fragments_fed", dups)
 	if outOfOrder && len(seq) >= 3 {
